@@ -1535,6 +1535,7 @@ def run(tier, seed, replay=None):
         "model coq/Model/C13Model.v is a hand transcription of the route drivers; tied by this correspondence run",
         "the Newick statement parser is an arbitrary function in the theorems; the correspondence run instantiates it with a skeleton parser (statement boundaries, comments, rooting tokens, taxon symbol resolution)",
         "string / stream / path dispatch (beyond the characters handed to the tokenizer, Model/C13Newlines.v: path= = universal-newline translation, a hand transcription checked against a text-mode read of the temp file), NeXML routes, character matrices: implementation-side oracle only",
+        "symbol mapper (wave 6): class NexusTaxonSymbolMapper is compiled by py/dv/gen_routes_mapper.py into Gen/RoutesMapper.v over coq/Model/C13MapPrims.v (dicts as association lists, CaseInsensitiveDict = lower-cased keys; trusted: these stated semantics, TaxonNamespace.label_taxon_map / new_taxon, case_sensitive=False folded) and proved equal to the model's mapper; the operations of C13GenPrims.v through which the block drivers use the mapper (construction, add_translate_token, lookup_taxon_symbol) are proved to be the compiled methods; bool defaults of compiled reader methods are read off the AST",
         "translator tie (Gen/Routes.v, Props/C13Gen.v): trusted are the compiler py/dv/gen_routes.py and the stated Python meaning of the interface operations in coq/Model/C13GenPrims.v (tokenizer methods, _get_taxon_namespace, _get_taxon_symbol_mapper, _parse_translate_statement, _parse_taxa_block, _new_tree_list, _build_tree_from_newick_tree_string, comment processing, reader.read_tree_lists glue in Proofs/C13GenEntry.v route_reader); these are tied to the source by the correspondence run only",
     ]
     if replay:
